@@ -503,6 +503,7 @@ def check(prog, rep):
     rep.ob("R12.5", "Parameter._value", ok, robust=True, msg= f"written only by {names}" if ok else f"Parameter._value is also written by {sorted(set(names) - allowed)}", loc=prog.cls("Parameter").loc, detail="writers")
     # gradient of a Parameter is a fresh constant 0, never its value (C02 R02.3), and the LP extractors only read
     # Constant-guarded values (R12.1)
+    _solver_build_time_calls(prog, rep)
     rep.expect_min("R12.1", 40)
     rep.expect_min("R12.3", 4)
     rep.expect_min("R12.4", 2)
@@ -514,3 +515,73 @@ def check(prog, rep):
         "numbers) is unreachable for them. Numeric results after an update are not decided."
     )
     rep.note("MatrixParameter hands out array snapshots (M @ x, .values, .row) by design and cannot be referenced symbolically; outside what this property can observe")
+
+
+def _kept(fn_node, call):
+    """Is the number returned by ``call`` (made while ``fn_node`` runs) kept in what the function produces -- bound to a
+    local that a nested function reads, that is returned, or that is stored into a container?  None: not kept / not seen."""
+    parents = {}
+    for n in ast.walk(fn_node):
+        for c in ast.iter_child_nodes(n):
+            parents[id(c)] = n
+    cur = call
+    while id(cur) in parents and isinstance(parents[id(cur)], ast.Call) and dotted(parents[id(cur)].func) in ("float", "np.asarray", "np.array", "np.float64"):
+        cur = parents[id(cur)]
+    st = parents.get(id(cur))
+    if isinstance(st, ast.Return):
+        return "returned"
+    if isinstance(st, ast.Assign) and len(st.targets) == 1 and isinstance(st.targets[0], ast.Subscript):
+        return f"stored in `{src(st.targets[0])}`"
+    if not (isinstance(st, (ast.Assign, ast.AnnAssign)) and isinstance(st.targets[0] if isinstance(st, ast.Assign) else st.target, ast.Name)):
+        return None
+    nm = (st.targets[0] if isinstance(st, ast.Assign) else st.target).id
+    for n in ast.walk(fn_node):
+        if isinstance(n, (ast.FunctionDef, ast.Lambda)) and n is not fn_node:
+            if any(isinstance(x, ast.Name) and x.id == nm and isinstance(x.ctx, ast.Load) for x in ast.walk(n)):
+                return f"captured as `{nm}` by the closure {getattr(n, 'name', '<lambda>')}"
+        if isinstance(n, ast.Return) and n.value is not None and enclosing_function(n) is fn_node and any(isinstance(x, ast.Name) and x.id == nm for x in ast.walk(n.value)):
+            return f"returned as `{nm}`"
+        if isinstance(n, ast.Assign) and isinstance(n.targets[0], ast.Subscript) and enclosing_function(n) is fn_node and any(isinstance(x, ast.Name) and x.id == nm for x in ast.walk(n.value)):
+            return f"stored in `{src(n.targets[0])}`"
+    return None
+
+
+def _solver_build_time_calls(prog, rep):
+    """A solver-cache builder compiles the objective / constraint bodies once and keeps the callables; the callables read
+    Parameters when they are called.  Calling one WHILE the cache is built and keeping the number (directly, or in a
+    module helper the callable is handed to) freezes the parameters' values at build time into the cache."""
+    for fi in prog.functions.values():
+        if not fi.module.name.startswith(("optyx.solvers", "optyx.problem")) or fi.parent is not None:
+            continue
+        assigns = local_assignments(fi.node)
+        compiled = {nm for nm, vals in assigns.items() for v in vals if isinstance(v, ast.Call) and (dotted(v.func) or "").split(".")[-1] == "compile_expression"}
+        if not compiled:
+            continue
+        for n in walk_local(fi.node):
+            if not isinstance(n, ast.Call):
+                continue
+            if isinstance(n.func, ast.Name) and n.func.id in compiled and enclosing_function(n) is fi.node:
+                kept = _kept(fi.node, n)
+                if kept:
+                    rep.ob("R12.1", f"{fi.name}:{n.func.id}(..)", False,
+                           f"`{src(n)[:50]}` calls the compiled body while {fi.name} builds the per-problem cache and the number is {kept}: a Parameter in that body is read now, and Parameter.set() before a later solve "
+                           f"(which does not rebuild the cache) is ignored", loc=f"{fi.module.rel}:{n.lineno}", detail="eager-read", robust=True)
+                continue
+            h = prog.functions.get(f"{fi.module.name}:{dotted(n.func)}") if isinstance(n.func, ast.Name) else None
+            if h is None or h is fi:
+                continue
+            from ..inline import bind_args
+            try:
+                bound = bind_args(h.node, n)
+            except Exception:
+                continue
+            for prm, arg in bound.items():
+                if not (isinstance(arg, ast.Name) and arg.id in compiled):
+                    continue
+                for c in walk_local(h.node):
+                    if isinstance(c, ast.Call) and isinstance(c.func, ast.Name) and c.func.id == prm and enclosing_function(c) is h.node:
+                        kept = _kept(h.node, c)
+                        if kept:
+                            rep.ob("R12.1", f"{fi.name}:{h.name}({arg.id})", False,
+                                   f"{fi.name} hands the compiled body `{arg.id}` to {h.name}(), which calls it at once (`{src(c)[:40]}`, line {c.lineno}) and the number is {kept}: a Parameter in that body is read while the "
+                                   f"per-problem cache is built, and Parameter.set() before a later solve (which does not rebuild the cache) is ignored", loc=f"{h.module.rel}:{c.lineno}", detail="eager-read", robust=True)
